@@ -1000,6 +1000,9 @@ func (w *World) mFSInit(ex *Exec, c *callCtx) Value {
 		for _, o := range logF.Cells {
 			ex.assume(Implies(And(o.Pres, cl.Pres), o.Complete)) // only the last line may be incomplete
 		}
+		if hs.by["nolinks"] == 1 {
+			w.assumeNoLink(cl)
+		}
 		ex.assume(Implies(cl.Blank, cl.Complete))
 		if hs.by["winv"] == 1 {
 			// world invariant: complete lines are blank or parse; only a torn last line may not
@@ -1037,6 +1040,9 @@ func (w *World) mFSInit(ex *Exec, c *callCtx) Value {
 				Complete: True,
 				Ev:       ex.havoc(n+".ev", w.eventT, hs, ""),
 			}
+			if hs.by["nolinks"] == 1 {
+				w.assumeNoLink(cl)
+			}
 			old.Cells = append(old.Cells, cl)
 		}
 	}
@@ -1046,6 +1052,19 @@ func (w *World) mFSInit(ex *Exec, c *callCtx) Value {
 		f.Exists0 = f.Exists
 	}
 	return StrV{T: w.dirAtom}
+}
+
+// assumeNoLink: the initial line is not a dependency edge. Units that summarise sortedKeys as
+// "no keys" (a CUT that is exact only for stores without edges, because compaction enumerates
+// edges through it) start from such logs.
+func (w *World) assumeNoLink(cl *LineCell) {
+	st := w.eventT.Underlying().(*types.Struct)
+	for i := 0; i < st.NumFields(); i++ {
+		if st.Field(i).Name() == "Type" {
+			t := cl.Ev.(StructV).F[i].(StrV).T
+			w.ex.assume(And(Neq(t, IntC(Lits.Code("link"))), Neq(t, IntC(Lits.Code("unlink")))))
+		}
+	}
 }
 
 // zzLockDiscipline() (writesInLock, readsFeedingWritesInLock, nonBlocking, exclusive bool):
